@@ -23,6 +23,7 @@ import ClipperVerif.Driver.C12
 import ClipperVerif.Driver.AddPaths
 import ClipperVerif.Driver.C10Isect
 import ClipperVerif.Driver.AelOrder
+import ClipperVerif.Driver.SweepOrder
 import ClipperVerif.Driver.AelRings
 import ClipperVerif.Driver.C06Joins
 import ClipperVerif.Driver.TrimHorz
@@ -55,6 +56,7 @@ def handlers : List (String → Option (P String)) := [
   AddPaths.handle,
   C10Isect.handle,
   AelOrder.handle,
+  SweepOrder.handle,
   AelRings.handle,
   C06Joins.handle,
   TrimHorz.handle
